@@ -152,6 +152,8 @@ class Calls:
                 s1 = st.copy()
                 if f == "dict":
                     return [(s1, self.new_dict(s1, T.dct(T.ANY, T.ANY)))]
+                if f == "set":
+                    return [(s1, self.new_dict(s1, Ty("set", (T.ANY,))))]
                 return [(s1, self.new_list(s1, [], T.lst(T.ANY)))]
             if f == "list" and len(n.args) == 1:
                 out = []
@@ -441,6 +443,12 @@ class Calls:
                 s2 = s2.copy()
                 if ot.k in ("list",) or (ot.k == "any" and m in ("append",)):
                     out += self.list_method(m, o, vals, s2, n)
+                elif ot.k == "set":
+                    if m == "add" and len(vals) == 1:
+                        self.dict_store(s2, o, vals[0].term, V.boolv(True))
+                        out.append((s2, NONE_SV))
+                    else:
+                        raise Unsupported(f"set.{m}")
                 elif ot.k == "dict":
                     out += self.dict_method(m, o, vals, s2, n)
                 elif ot.k == "str":
